@@ -5,6 +5,7 @@
 package lockset
 
 import (
+	"go/types"
 	"fmt"
 	"go/token"
 	"sort"
@@ -133,6 +134,62 @@ type Result struct {
 	LockSites int
 	w         *load.World
 	tagger    Tagger
+	// AtomicMaps: guarded map field ("pkg.Type.field") -> lock class that guards it. A lookup of
+	// such a map followed on the same path by an update of it must stay inside one critical
+	// section of that lock (check-then-act atomicity); Splits lists the updates that do not.
+	AtomicMaps map[string]string
+	Splits     []Split
+	Acts       []Split // every update that follows a lookup of the same map on its path
+}
+
+// Split: a map update that acts on a lookup made in an earlier critical section.
+type Split struct {
+	Fn    *ssa.Function
+	At    string
+	Field string
+	In    ssa.Instruction
+}
+
+func guardedMapField(v ssa.Value) string {
+	u, ok := v.(*ssa.UnOp)
+	if !ok {
+		return ""
+	}
+	fa, ok := u.X.(*ssa.FieldAddr)
+	if !ok {
+		return ""
+	}
+	st, ok := fa.X.Type().Underlying().(*types.Pointer)
+	if !ok {
+		return ""
+	}
+	n, ok := types.Unalias(st.Elem()).(*types.Named)
+	if !ok {
+		return ""
+	}
+	str, ok := n.Underlying().(*types.Struct)
+	if !ok || n.Obj().Pkg() == nil {
+		return ""
+	}
+	return n.Obj().Pkg().Name() + "." + n.Origin().Obj().Name() + "." + str.Field(fa.Field).Name()
+}
+
+func (s *state) dropTag(t string) {
+	for i, x := range s.tags {
+		if x == t {
+			s.tags = append(s.tags[:i:i], s.tags[i+1:]...)
+			return
+		}
+	}
+}
+
+func (s *state) hasTag(t string) bool {
+	for _, x := range s.tags {
+		if x == t {
+			return true
+		}
+	}
+	return false
 }
 
 type lockOp struct {
@@ -181,9 +238,11 @@ func AsLockOp(c *ssa.CallCommon) (kind string, l Lock, ok bool) {
 	return fn.Name(), Lock{Key: k, Class: LockClass(c.Args[0]), Mode: m, Fresh: fresh}, true
 }
 
-func Analyze(w *load.World, tagger Tagger) *Result {
+func Analyze(w *load.World, tagger Tagger) *Result { return AnalyzeAtomic(w, tagger, nil) }
+
+func AnalyzeAtomic(w *load.World, tagger Tagger, atomicMaps map[string]string) *Result {
 	w.BuildCallGraph()
-	r := &Result{tagger: tagger,
+	r := &Result{tagger: tagger, AtomicMaps: atomicMaps,
 		Must: map[ssa.Instruction]map[string]Mode{}, May: map[ssa.Instruction]map[string]bool{},
 		Acq: map[*ssa.Function]map[string]bool{}, Classes: map[string]bool{}, w: w,
 	}
@@ -342,6 +401,24 @@ func (r *Result) explore(f *ssa.Function) {
 					st.addTag(t)
 				}
 			}
+			if len(r.AtomicMaps) > 0 {
+				switch x := in.(type) {
+				case *ssa.Lookup:
+					if fld := guardedMapField(x.X); fld != "" && r.AtomicMaps[fld] != "" {
+						st.addTag("chk:" + fld)
+						st.addTag("everchk:" + fld)
+					}
+				case *ssa.MapUpdate:
+					if fld := guardedMapField(x.Map); fld != "" && r.AtomicMaps[fld] != "" {
+						if st.hasTag("everchk:" + fld) {
+							r.Acts = append(r.Acts, Split{f, r.w.At(in), fld, in})
+							if !st.hasTag("chk:" + fld) {
+								r.Splits = append(r.Splits, Split{f, r.w.At(in), fld, in})
+							}
+						}
+					}
+				}
+			}
 			switch x := in.(type) {
 			case *ssa.Defer:
 				if kind, l, ok := AsLockOp(x.Common()); ok && (kind == "Unlock" || kind == "RUnlock") {
@@ -380,6 +457,11 @@ func (r *Result) explore(f *ssa.Function) {
 						tries[x] = l
 					case "Unlock", "RUnlock":
 						release(&st, l)
+						for fld, cls := range r.AtomicMaps {
+							if cls == l.Class {
+								st.dropTag("chk:" + fld)
+							}
+						}
 					}
 					continue
 				}
